@@ -639,7 +639,7 @@ func (c *Client) Do(ctx context.Context, q Query) (err error) {
 				otelch.QueryID(q.QueryID),
 			),
 		)
-		m := new(queryMetrics)
+		m := new(sharedQueryMetrics)
 		ctx = context.WithValue(newCtx, ctxQueryKey{}, m)
 		defer func() {
 			span.SetAttributes(
